@@ -14,7 +14,7 @@ from C08_harness import obs_equal
 ID = 'C14'
 PROGRAMS = {'core': dict(crate='vaporetto', features=['train', 'kytea'])}
 UNIT_CAP = 150
-BUDGET_S = {'quick': 250, 'thorough': 2400}
+BUDGET_S = {'quick': 600, 'thorough': 1200}      # wall-clock safety caps (exceeding one is reported as inconclusive); typical quick runs take 1-200 s
 
 SHAPES = {
     'plain': ({'cw': 2, 'tw': 4, 'char': ['a', 'ba'], 'type': ['RO'], 'dict': ['ab']}, False),
@@ -32,7 +32,7 @@ SHAPES = {
 BOUNDS = {
     'quick': {'shapes': sorted(SHAPES), 'weights': 'symbolic i16 weights: the last two (window8: eight; manytags: also the last two tag-bias entries) weights of the first table entry range over all of i16 incl. 0 (trailing-zero trimming), all others over 1..32767 (so that merged sums cannot cancel to zero and fork the trimming loop)',
               'text': '1..2 symbolic characters (1..3 for the variable-layout shape)', 'trailing bytes': '0..2 symbolic bytes'},
-    'thorough': {'shapes': sorted(SHAPES), 'weights': 'as quick', 'text': '1..4 symbolic characters', 'trailing bytes': '0..3'},
+    'thorough': {'shapes': sorted(SHAPES), 'weights': 'as quick', 'text': '1..4 symbolic characters (1..3 for the shapes tagged and window8, 1..2 for manytags)', 'trailing bytes': '0..3'},
 }
 OUTSIDE = ('bincode byte format and daachorse (de)serialisation internals (typed token stream / opaque automaton token by contract); shapes outside the catalogue; '
            'weight vectors with several simultaneous zero entries beyond the first table entry')
@@ -53,6 +53,10 @@ def jobs(tier, seed):
                 if tr and n > 1:
                     continue
                 if tier == 'quick' and n == 3 and name not in ('variable', 'window8'):
+                    continue
+                if tier != 'quick' and n == 4 and name in ('tagged', 'manytags', 'window8'):
+                    continue        # arg-max chains over four symbolic characters time the solver out; stated in the bounds
+                if tier != 'quick' and n == 3 and name == 'manytags':
                     continue
                 js.append({'name': 'serde/%s/n%d/t%d' % (name, n, tr), 'shape': name, 'n': n, 'trailing': tr})
     js.sort(key=lambda j: -j['n'])
